@@ -1,4 +1,5 @@
 import Driver.Sess
+import Driver.Catalog
 import Driver.Concurrency
 import Driver.Facet
 import Driver.Field
@@ -11,6 +12,7 @@ import Driver.Widcode
 open Driver
 
 def sessions : List (String × Sess) := [
+  ("catalog", CatalogS.sess),
   ("concurrency", ConcurrencyS.sess),
   ("facet", FacetS.sess),
   ("field", FieldS.sess),
